@@ -159,7 +159,11 @@ func (e *Engine) queriesFor(vc *VC, propFilter func(*Obligation) bool) []*query 
 		if propFilter != nil && !propFilter(ob) {
 			continue
 		}
-		text := prelude + strings.Join(vc.script[:ob.Prefix], "\n") + "\n(assert (not " + mkImp(ob.PC, ob.Goal) + "))"
+		hints := ""
+		for _, h := range e.hoistHints(ob.Goal) {
+			hints += "\n(assert " + h + ")"
+		}
+		text := prelude + strings.Join(vc.script[:ob.Prefix], "\n") + hints + "\n(assert (not " + mkImp(ob.PC, ob.Goal) + "))"
 		qs = append(qs, &query{name: ob.Name, text: text, expect: "unsat", ob: ob, inputs: vc.inputs})
 	}
 	if vc.spec.Covers {
